@@ -208,3 +208,10 @@ package certstore
 //@     before[instances_are_consecutive] i == prev(i) + 1 || prev(i) == 18446744073709551615
 //@   at writeInstanceNumber 1
 //@     before[latest_pointer_only_for_a_complete_snapshot] latestCert != nil && latestCert.GPBFTInstance == header.LatestInstance && arg(2) == certStoreLatestKey && arg(3) == header.LatestInstance
+
+// C14 decoder sweep: no index, slice or allocation-size panic for any input the CBOR reader can produce.
+//@ func (*SnapshotHeader).UnmarshalCBOR
+//@   property C14
+//@   modifies auto
+//@   maypanic
+
